@@ -14,10 +14,10 @@ FUNCTIONS = [Buffer.move_hot_to_cold, Buffer.move_cold_to_hot, HotBuffer.transfe
              ColdBuffer.transfer_observation, ColdBuffer.receive_observation, HotBuffer.has_capacity_for, ColdBuffer.has_capacity_for,
              HotBuffer.observation_for_transfer, ColdBuffer.observation_for_transfer]
 META = {
-    'bounds': {'C18.size': 'unbounded int >= 1, size <= 3*min(hot_rate, cold_rate) (<= 3 transfer steps)',
+    'bounds': {'C18.size': 'unbounded int >= 1, size <= K*min(hot_rate, cold_rate): K = 6 transfer steps (quick) / 16 (thorough); round trip K = 3',
                'C18.rates': 'unbounded ints >= 1, either may be the slower', 'C18.capacities': 'unbounded ints', 'C18.other_resident_data': 'unbounded ints >= 0',
                'C18.directions': ['hot->cold', 'cold->hot', 'round trip']},
-    'outside_bounds': ['moves longer than 3 transfer steps', 'several observations in transfer at once (the code supports one)',
+    'outside_bounds': ['moves longer than the stated number of transfer steps', 'several observations in transfer at once (the code supports one)',
                        "'real-time' mode (non-positive rates)"],
     'stubs': ['FakeCfg hands HotBuffer/ColdBuffer objects to Buffer.__init__ (no JSON)'],
     'assumptions': ['sizes and rates are integers (DESIGN E12)'],
@@ -53,7 +53,7 @@ def move(env, buf, hot, cold, o, size, rh, rc, direction):
     try:
         p = env.process(gen)
         chunks = 0
-        for i in range(6):
+        for i in range(kmax() + 3):
             prev = src.current_capacity
             env.run(env.now + 1)
             if hot.current_capacity + cold.current_capacity != total:
@@ -102,7 +102,7 @@ def h2c_tag(size, rh, rc, hcap, ccap, ho, co):
 
 def h2c(size: int, rh: int, rc: int, hcap: int, ccap: int, ho: int, co: int) -> bool:
     """
-    pre: size >= 1 and rh >= 1 and rc >= 1 and size <= 3 * rh and size <= 3 * rc
+    pre: size >= 1 and rh >= 1 and rc >= 1 and size <= kmax() * rh and size <= kmax() * rc
     pre: ho >= 0 and co >= 0 and ho + size <= hcap and co <= ccap
     post: _
     """
@@ -119,7 +119,7 @@ def c2h_tag(size, rh, rc, hcap, ccap, ho, co):
 
 def c2h(size: int, rh: int, rc: int, hcap: int, ccap: int, ho: int, co: int) -> bool:
     """
-    pre: size >= 1 and rh >= 1 and rc >= 1 and size <= 3 * rh and size <= 3 * rc
+    pre: size >= 1 and rh >= 1 and rc >= 1 and size <= kmax() * rh and size <= kmax() * rc
     pre: ho >= 0 and co >= 0 and ho <= hcap and co + size <= ccap
     post: _
     """
@@ -156,12 +156,17 @@ def roundtrip(size: int, rh: int, rc: int, hcap: int, ccap: int, ho: int, co: in
     return wit.verdict(t)
 
 
+def kmax():
+    return PIN.get('kmax', 3)
+
+
 def warmup():
     h2c_tag(5, 2, 3, 10, 10, 0, 0)
     c2h_tag(5, 2, 3, 10, 10, 0, 0)
 
 
 def shards(tier, prop):
-    T = 120 if tier == 'quick' else 600
-    return [{'fn': 'h2c', 'cond_timeout': T}, {'fn': 'c2h', 'cond_timeout': T}, {'fn': 'roundtrip', 'cond_timeout': T},
+    T = 120 if tier == 'quick' else 900
+    pin = {'kmax': 6} if tier == 'quick' else {'kmax': 16}
+    return [{'fn': 'h2c', 'pin': pin, 'cond_timeout': T}, {'fn': 'c2h', 'pin': pin, 'cond_timeout': T}, {'fn': 'roundtrip', 'cond_timeout': T},
             {'fn': 'h2c', 'cond_timeout': 30, 'twin': True}, {'fn': 'c2h', 'cond_timeout': 30, 'twin': True}]
